@@ -943,7 +943,7 @@ func RunChild(cfg Config, reqPath string) int {
 		}
 		os.Stdout.Write(mustJSON(plainChild(req)))
 		return 0
-	case "c20-solo", "c20-run":
+	case "c20-solo", "c20-run", "c20-seq":
 		return c20Child(cfg, head.Kind, b)
 	}
 	fmt.Fprintln(os.Stderr, "child: unknown request kind", head.Kind)
